@@ -271,3 +271,29 @@ func VP_C12_StringBytes() {
 	}
 	vpReach("end")
 }
+
+// VP_C12_AfterPanic: a call that panicked on a byte outside aAcCgGtTnN
+// (recovered by the caller) leaves nothing behind: the next calls of
+// ReverseComplement and ReverseComplementString on a valid sequence give the
+// reverse complement of that sequence and nothing else.
+func VP_C12_AfterPanic() {
+	nb, ng := vpCase("bad"), vpCase("good")
+	bad := vpBytes("bad", nb)
+	p1 := vpPanics(func() { ReverseComplementString(string(bad)) })
+	p2 := vpPanics(func() { ReverseComplement(nil, bad) })
+	good := vpBytes("good", ng)
+	for _, b := range good {
+		vpAssume(vpIsDNA10(b))
+	}
+	var gs string
+	var gb []byte
+	p3 := vpPanics(func() {
+		gs = ReverseComplementString(string(good))
+		gb = ReverseComplement(nil, good)
+	})
+	vpAssert(!p3, "a valid sequence is accepted, also after a rejected one")
+	want := vpRC(good)
+	vpAssert(p3 || (gs == string(want) && bytes.Equal(gb, want)), "the result does not depend on an earlier, rejected input")
+	vpObserveBool("first-panicked", p1 || p2)
+	vpReach("end")
+}
